@@ -296,6 +296,131 @@ def P_apalache(name, module, inv, timeout=600):
     return run
 
 
+def P(quick, thorough, rule, labels, extra_assume=()):
+    return {'quick': quick, 'thorough': thorough, 'rule': PATCH_RULE % rule, 'exhaustive': True,
+            'assumptions': PATCH_ASSUME + list(extra_assume),
+            'required_labels': {'quick': labels, 'thorough': labels}}
+
+
+def AP(name, seeds, opts, vals, vals2, maxops, **kw):
+    kw.setdefault('invariants', INV)
+    kw.setdefault('properties', PROPS)
+    return A_patch(name, seeds, opts, vals, vals2, maxops, **kw)
+
+
+def MPLAN(quick, thorough, rule, labels):
+    return {'quick': quick, 'thorough': thorough, 'rule': rule, 'exhaustive': True, 'assumptions': MERGE_ASSUME,
+            'required_labels': {'quick': labels, 'thorough': labels}}
+
+
+def A_equal(name, level, triples=True, **kw):
+    def run(ctx):
+        consts = {'Level': level, 'EmitOn': 'TRUE', 'Triples': 'TRUE' if triples else 'FALSE'}
+        run_A(ctx, 'MCEqual', name, consts, invariants=('Reflexive', 'Symmetric', 'Transitive', 'NullOnlyNull', 'OrderBlind'),
+              spec='ESpec', **kw)
+    return run
+
+
+def A_decode(name, pairs, **kw):
+    def run(ctx):
+        run_A(ctx, 'MCDecode', name, {'EmitOn': 'TRUE', 'Pairs': pairs, 'MaxNest': 10000}, invariants=('BaseAccepted',), spec='DSpec', **kw)
+    return run
+
+
+def A_words(name, maxlen, sigma, depth=10000, **kw):
+    def run(ctx):
+        consts = {'MaxLen': maxlen, 'SigmaId': '"%s"' % sigma, 'EmitOn': 'TRUE', 'MaxDepth': depth, 'MaxNest': depth}
+        run_A(ctx, 'MCScanner', name, consts, invariants=('ScanOK', 'LanguageEq', 'ErrorAbsorbs', 'TransducersOK'), spec='SSpec', **kw)
+    return run
+
+
+def A_codec(name, level, **kw):
+    def run(ctx):
+        consts = {'Level': level, 'EmitOn': 'TRUE', 'MaxNest': 10000, 'MaxDepth': 10000}
+        run_A(ctx, 'MCCodec', name, consts, invariants=('ParseEnc', 'SortedIsEqual', 'TransducersOnEnc'), spec='CSpec', rworkers=2, **kw)
+    return run
+
+
+def A_goenc(name, level, **kw):
+    def run(ctx):
+        run_A(ctx, 'MCGoEnc', name, {'EmitOn': 'TRUE', 'Level': level, 'MaxNest': 10000}, invariants=('WellFormedOut',), spec='GSpec', **kw)
+    return run
+
+
+def A_equal_legacy(name, level):
+    def run(ctx):
+        consts = {'Level': level, 'EmitOn': 'TRUE', 'Triples': 'FALSE'}
+        run_A(ctx, 'MCEqual', name, consts, invariants=('Reflexive', 'Symmetric', 'NullOnlyNull', 'OrderBlind'), spec='ESpec', legacy=True)
+    return run
+
+
+def A_cli(name, maxfiles):
+    def run(ctx):
+        h = ctx.harness()
+        stage = os.path.join(ctx.scratch, 'v5stage')
+        cli = os.path.join(ctx.scratch, 'bin-json-patch')
+        p = subprocess.run(['go', 'build', '-o', cli, './cmd/json-patch'], cwd=stage, env=ctx.env, capture_output=True, text=True)
+        if p.returncode != 0:
+            raise Broken('cannot build v5/cmd/json-patch: ' + p.stderr[-2000:])
+        tmp = os.path.join(ctx.scratch, 'clitmp')
+        os.makedirs(tmp, exist_ok=True)
+        run_A(ctx, 'Cli', name, {'MaxFiles': maxfiles, 'EmitOn': 'TRUE'},
+              invariants=('NoPartialOutput', 'OutputIsFold', 'FailsCleanly', 'OrderWitness'), spec='CSpec',
+              extra_opt='cli=%s,tmp=%s' % (cli, tmp))
+    return run
+
+
+def A_history(name, maxcalls, procs, callset, **kw):
+    def run(ctx):
+        consts = {'MaxCalls': maxcalls, 'Procs': procs, 'CallSet': '"%s"' % callset, 'EmitOn': 'TRUE'}
+        run_A(ctx, 'History', name, consts, invariants=('InputsUnchanged', 'ResultIsFunctionOfCall'), spec='HSpec', **kw)
+    return run
+
+
+def both(stage_v5, stage_v4):
+    return [stage_v5, stage_v4]
+
+
+def replay_file(ctx, plan, path):
+    """Re-run one recorded case against /repo's current working tree (bin/check <id> --replay <file>)."""
+    v = json.load(open(path))
+    case = v.get('case', {})
+    legacy = case.get('package') == 'v4'
+    before = ctx.violations
+    if v.get('kind') == 'trace-rejected':
+        # direction B: re-execute the recorded inputs, record the events again, validate them again
+        B_trace('replay', case['fam'], 0, mode='ordered' if ctx.prop == 'C05' else 'value', legacy=legacy, case=path)(ctx)
+        return 1 if ctx.violations > before else 0
+    if v.get('kind') == 'data-race':
+        print('a data race is a property of an execution: re-running the stage that reported it')
+        for stage in plan['quick']:
+            stage(ctx)
+        return 1 if ctx.violations > before else 0
+    line = case.get('line')
+    if line is None:
+        raise Broken('replay file has no line')
+    race = ctx.prop == 'C10'
+    replay = ctx.build('replay', legacy=legacy, race=race)
+    rargs = [replay, '-prop', ctx.prop, '-seed', str(ctx.seed), '-findings', FINDINGS,
+             '-replays', os.path.join(ctx.scratch, 'replays'), '-workers', '1']
+    if case.get('spelling') == 'respelled':
+        rargs.append('-respell')
+    if line.get('fam') == 'cli':
+        stage = os.path.join(ctx.scratch, 'v5stage')
+        cli = os.path.join(ctx.scratch, 'bin-json-patch')
+        subprocess.run(['go', 'build', '-o', cli, './cmd/json-patch'], cwd=stage, env=ctx.env, check=True)
+        rargs += ['-opt', 'cli=%s,tmp=%s' % (cli, ctx.scratch)]
+    p = subprocess.run(rargs, input=json.dumps(line) + '\n', capture_output=True, text=True, env=ctx.env)
+    print(p.stdout)
+    if p.returncode == 2 and re.search(r'^fatal error: |^runtime: goroutine stack exceeds', p.stderr, re.M):
+        print('VIOLATION property=%s replay=%s' % (ctx.prop, path))
+        print('  kind=crash ' + re.search(r'^(fatal error: .*|runtime: goroutine stack exceeds.*)$', p.stderr, re.M).group(1))
+        return 1
+    if p.returncode not in (0, 1):
+        raise Broken('the replayer failed: ' + p.stderr[-1500:])
+    return 1 if 'VIOLATION' in p.stdout else 0
+
+
 V_ALL = list(range(1, 14))
 S_ALL = list(range(1, 12))
 O_ALL = list(range(1, 12))
@@ -314,16 +439,8 @@ CORE_LABELS = ['AddMember', 'AddExisting', 'AddInsert', 'AddAppend', 'RemoveMemb
                'ReplaceMember', 'ReplaceElem', 'Move', 'Copy', 'TestPass', 'TestFail']
 
 
-def P(quick, thorough, rule, labels, extra_assume=()):
-    return {'quick': quick, 'thorough': thorough, 'rule': PATCH_RULE % rule, 'exhaustive': True,
-            'assumptions': PATCH_ASSUME + list(extra_assume),
-            'required_labels': {'quick': labels, 'thorough': labels}}
 
 
-def AP(name, seeds, opts, vals, vals2, maxops, **kw):
-    kw.setdefault('invariants', INV)
-    kw.setdefault('properties', PROPS)
-    return A_patch(name, seeds, opts, vals, vals2, maxops, **kw)
 
 
 PLANS = {
@@ -417,9 +534,6 @@ MERGE_ASSUME = [
 ]
 
 
-def MPLAN(quick, thorough, rule, labels):
-    return {'quick': quick, 'thorough': thorough, 'rule': rule, 'exhaustive': True, 'assumptions': MERGE_ASSUME,
-            'required_labels': {'quick': labels, 'thorough': labels}}
 
 
 PLANS.update({
@@ -452,30 +566,21 @@ PLANS.update({
 })
 
 
-def A_equal(name, level, triples=True, **kw):
-    def run(ctx):
-        consts = {'Level': level, 'EmitOn': 'TRUE', 'Triples': 'TRUE' if triples else 'FALSE'}
-        run_A(ctx, 'MCEqual', name, consts, invariants=('Reflexive', 'Symmetric', 'Transitive', 'NullOnlyNull', 'OrderBlind'),
-              spec='ESpec', **kw)
-    return run
 
 
-def A_decode(name, pairs, **kw):
-    def run(ctx):
-        run_A(ctx, 'MCDecode', name, {'EmitOn': 'TRUE', 'Pairs': pairs, 'MaxNest': 10000}, invariants=('BaseAccepted',), spec='DSpec', **kw)
-    return run
 
 
 PLANS.update({
     'C06': {
-        'quick': [A_equal('eq', 2)],
-        'thorough': [A_equal('eq', 2), A_equal('eq3', 3, triples=False, timeout=9000)],
+        'quick': [A_equal('eq', 2), A_words('w4', 4, 'full')],
+        'thorough': [A_equal('eq', 2), A_equal('eq3', 3, triples=False, timeout=9000), A_words('w5', 5, 'full', timeout=9000)],
         'rule': 'TLC enumerates every pair of the bounded universe plus near-misses (members reordered, elements swapped, null at the root / '
                 'in arrays / as member) with the verdict of structural equality, and checks reflexivity, symmetry, transitivity (all triples '
                 'a=b, c) and null-only-null on the specification; the real Equal is called on 2x2 spellings of each pair in both argument '
-                'orders; malformed texts are covered by the words of C16; distinct_nontrivial counts distinct pairs inside the domain',
+                'orders; malformed texts: every word of the bounded JSON language (MCScanner, bare and wrapped in white space) is given to '
+                'Equal(w, w), Equal(w, 1), Equal(1, w) with the grammar\'s verdict as the expectation; distinct_nontrivial counts distinct pairs / words',
         'exhaustive': True, 'assumptions': MERGE_ASSUME,
-        'required_labels': {'quick': ['Equal_true', 'Equal_false', 'Equal_nullroot'], 'thorough': ['Equal_true', 'Equal_false', 'Equal_nullroot']},
+        'required_labels': {t: ['Equal_true', 'Equal_false', 'Equal_nullroot', 'Word_invalid', 'Word_valid_num'] for t in ('quick', 'thorough')},
     },
     'C11': {
         'quick': [A_decode('dec', 1)],
@@ -493,11 +598,6 @@ PLANS.update({
 })
 
 
-def A_words(name, maxlen, sigma, depth=10000, **kw):
-    def run(ctx):
-        consts = {'MaxLen': maxlen, 'SigmaId': '"%s"' % sigma, 'EmitOn': 'TRUE', 'MaxDepth': depth, 'MaxNest': depth}
-        run_A(ctx, 'MCScanner', name, consts, invariants=('ScanOK', 'LanguageEq', 'ErrorAbsorbs', 'TransducersOK'), spec='SSpec', **kw)
-    return run
 
 
 TEXT_ASSUME = [
@@ -530,17 +630,8 @@ PLANS.update({
 })
 
 
-def A_codec(name, level, **kw):
-    def run(ctx):
-        consts = {'Level': level, 'EmitOn': 'TRUE', 'MaxNest': 10000, 'MaxDepth': 10000}
-        run_A(ctx, 'MCCodec', name, consts, invariants=('ParseEnc', 'SortedIsEqual', 'TransducersOnEnc'), spec='CSpec', rworkers=2, **kw)
-    return run
 
 
-def A_goenc(name, level, **kw):
-    def run(ctx):
-        run_A(ctx, 'MCGoEnc', name, {'EmitOn': 'TRUE', 'Level': level, 'MaxNest': 10000}, invariants=('WellFormedOut',), spec='GSpec', **kw)
-    return run
 
 
 PLANS.update({
@@ -587,11 +678,6 @@ PLANS.update({
 })
 
 
-def A_equal_legacy(name, level):
-    def run(ctx):
-        consts = {'Level': level, 'EmitOn': 'TRUE', 'Triples': 'FALSE'}
-        run_A(ctx, 'MCEqual', name, consts, invariants=('Reflexive', 'Symmetric', 'NullOnlyNull', 'OrderBlind'), spec='ESpec', legacy=True)
-    return run
 
 
 PLANS.update({
@@ -612,20 +698,6 @@ PLANS.update({
 })
 
 
-def A_cli(name, maxfiles):
-    def run(ctx):
-        h = ctx.harness()
-        stage = os.path.join(ctx.scratch, 'v5stage')
-        cli = os.path.join(ctx.scratch, 'bin-json-patch')
-        p = subprocess.run(['go', 'build', '-o', cli, './cmd/json-patch'], cwd=stage, env=ctx.env, capture_output=True, text=True)
-        if p.returncode != 0:
-            raise Broken('cannot build v5/cmd/json-patch: ' + p.stderr[-2000:])
-        tmp = os.path.join(ctx.scratch, 'clitmp')
-        os.makedirs(tmp, exist_ok=True)
-        run_A(ctx, 'Cli', name, {'MaxFiles': maxfiles, 'EmitOn': 'TRUE'},
-              invariants=('NoPartialOutput', 'OutputIsFold', 'FailsCleanly', 'OrderWitness'), spec='CSpec',
-              extra_opt='cli=%s,tmp=%s' % (cli, tmp))
-    return run
 
 
 PLANS.update({
@@ -646,11 +718,6 @@ PLANS.update({
 })
 
 
-def A_history(name, maxcalls, procs, callset, **kw):
-    def run(ctx):
-        consts = {'MaxCalls': maxcalls, 'Procs': procs, 'CallSet': '"%s"' % callset, 'EmitOn': 'TRUE'}
-        run_A(ctx, 'History', name, consts, invariants=('InputsUnchanged', 'ResultIsFunctionOfCall'), spec='HSpec', **kw)
-    return run
 
 
 HIST_ASSUME = [
@@ -693,8 +760,6 @@ PLANS.update({
 O_EVERY = list(range(12, 60))      # all 16 boolean combinations x limits 0, 1, 5
 
 
-def both(stage_v5, stage_v4):
-    return [stage_v5, stage_v4]
 
 
 PLANS.update({
@@ -741,44 +806,6 @@ PLANS.update({
 })
 
 
-def replay_file(ctx, plan, path):
-    """Re-run one recorded case against /repo's current working tree (bin/check <id> --replay <file>)."""
-    v = json.load(open(path))
-    case = v.get('case', {})
-    legacy = case.get('package') == 'v4'
-    before = ctx.violations
-    if v.get('kind') == 'trace-rejected':
-        # direction B: re-execute the recorded inputs, record the events again, validate them again
-        B_trace('replay', case['fam'], 0, mode='ordered' if ctx.prop == 'C05' else 'value', legacy=legacy, case=path)(ctx)
-        return 1 if ctx.violations > before else 0
-    if v.get('kind') == 'data-race':
-        print('a data race is a property of an execution: re-running the stage that reported it')
-        for stage in plan['quick']:
-            stage(ctx)
-        return 1 if ctx.violations > before else 0
-    line = case.get('line')
-    if line is None:
-        raise Broken('replay file has no line')
-    race = ctx.prop == 'C10'
-    replay = ctx.build('replay', legacy=legacy, race=race)
-    rargs = [replay, '-prop', ctx.prop, '-seed', str(ctx.seed), '-findings', FINDINGS,
-             '-replays', os.path.join(ctx.scratch, 'replays'), '-workers', '1']
-    if case.get('spelling') == 'respelled':
-        rargs.append('-respell')
-    if line.get('fam') == 'cli':
-        stage = os.path.join(ctx.scratch, 'v5stage')
-        cli = os.path.join(ctx.scratch, 'bin-json-patch')
-        subprocess.run(['go', 'build', '-o', cli, './cmd/json-patch'], cwd=stage, env=ctx.env, check=True)
-        rargs += ['-opt', 'cli=%s,tmp=%s' % (cli, ctx.scratch)]
-    p = subprocess.run(rargs, input=json.dumps(line) + '\n', capture_output=True, text=True, env=ctx.env)
-    print(p.stdout)
-    if p.returncode == 2 and re.search(r'^fatal error: |^runtime: goroutine stack exceeds', p.stderr, re.M):
-        print('VIOLATION property=%s replay=%s' % (ctx.prop, path))
-        print('  kind=crash ' + re.search(r'^(fatal error: .*|runtime: goroutine stack exceeds.*)$', p.stderr, re.M).group(1))
-        return 1
-    if p.returncode not in (0, 1):
-        raise Broken('the replayer failed: ' + p.stderr[-1500:])
-    return 1 if 'VIOLATION' in p.stdout else 0
 
 # ---------------------------------------------------------------------------------------------
 # direction B stages: traces recorded from the real code, validated by TLC against spec/TraceApi.tla
